@@ -28,6 +28,8 @@ pub enum Op {
     /// insert a Loaded entry that shares its zone object (the same `Arc`) with the Loaded entry inserted
     /// last at this name and class, with fresh metadata: (name selector, case mask, class selector)
     Reinsert(u16, u64, u8),
+    /// continue with a clone of the catalog (copy-on-write updates of a served catalog clone it first)
+    CloneCatalog,
 }
 
 #[derive(Clone, Debug, Serialize, Deserialize, PartialEq, Eq, Hash)]
@@ -143,6 +145,11 @@ pub fn oracle(case: &Case, st: &mut Stats) -> Verdict {
                     mprev
                 );
             }
+            Op::CloneCatalog => {
+                let copy = g!(i, "clone", cat.clone());
+                cat = copy;
+                st.class("history-continued-on-a-clone-of-the-catalog");
+            }
             Op::Lookup(..) | Op::Get(..) | Op::Iter => {}
         }
         // after every step: every (name, class) pair of the pool is looked up both ways, plus iteration
@@ -240,6 +247,7 @@ fn case_strategy() -> impl Strategy<Value = Case> {
         4 => (any::<u16>(), mask(), 0u8..3).prop_map(|(s, m, c)| Op::Remove(s, m, c)),
         1 => Just(Op::Iter),
         2 => (any::<u16>(), mask(), 0u8..3).prop_map(|(s, m, c)| Op::Reinsert(s, m, c)),
+        1 => Just(Op::CloneCatalog),
     ];
     (names, prop::collection::vec(op, 0..50)).prop_map(|(names, ops)| Case { names, ops })
 }
